@@ -193,8 +193,7 @@ CLAIMED.update({
         "Quaternion) is the left-handed one; Decomposed<Vector3, Basis3>::look_at_rh / look_at_lh / look_at have scale 1, the Matrix3 rotation of the same handedness and the same action on every point "
         "as the Matrix4 of the same handedness; Matrix2/Basis2::look_at(d, up) has orthonormal columns, the first d/|d|, the second on the side of up. " + TIE +
         "All 30 look_* entry points (including the Transform trait methods, the Quaternion and Decomposed variants and the deprecated aliases) are executed on directions in general position.",
-   note=NOTE + RAX + "Quaternion::look_at is by definition quat_of_m3(Matrix3::look_to_lh); that this conversion preserves an arbitrary rotation matrix is not proved (C05 proves it for matrices of unit "
-        "quaternions) — PARTIAL for the Quaternion / Decomposed<_, Quaternion> agreement clause, which is checked by the correspondence and an executed predicate.",
+   note=NOTE + RAX + "Quaternion::look_at is by definition quat_of_m3(Matrix3::look_to_lh); that this conversion returns a unit quaternion with exactly that matrix for EVERY rotation matrix is proved (C05_back_conversion_all_rotations), and C09_quaternion / C09_decomposed_quaternion give the agreement of the Quaternion and Decomposed<_, Quaternion> constructors with the matrices.",
    design="6 (C09)", technique="Coq proof (nsatz over R after eliminating the normalisations) + exact-rational correspondence on all entry points"),
 })
 
